@@ -79,6 +79,20 @@ func NewMapRefSelfSource[T any, U any](m map[string]U, fn func(U, Sourcer[T]) (r
 			out.List[i].V = v
 		}
 	}
+	for _, o := range out.List {
+		visited := map[*Object[string, Ref[T]]]struct{}{o: {}}
+		for r := o.V; r != nil; {
+			next := r.Ref()
+			if next == nil {
+				break
+			}
+			if _, ok := visited[next]; ok {
+				return zero, fmt.Errorf("map key %q: reference %q: cyclic reference", o.Name, next.Name)
+			}
+			visited[next] = struct{}{}
+			r = next.V
+		}
+	}
 	return out, nil
 }
 
